@@ -146,6 +146,7 @@ def occurrences(pats_b, line_b):
 
 
 SGR = re.compile(rb"\x1b\[([0-9;]*)m")
+CSI = re.compile(rb"\x1b\[[0-9;?]*[@-~]")
 
 
 def parse_sgr(raw, attrs=None):
@@ -159,6 +160,12 @@ def parse_sgr(raw, attrs=None):
         if raw[i] == 0x1B:
             m = SGR.match(raw, i)
             if not m:
+                # other CSI sequences (e.g. ESC[K, erase to end of line, which GNU grep emits next to
+                # its colours) do not change what is highlighted: skip them
+                c = CSI.match(raw, i)
+                if c:
+                    i = c.end()
+                    continue
                 raise ValueError("unparsable escape sequence at byte %d" % i)
             params = m.group(1).split(b";") if m.group(1) else [b"0"]
             for prm in params:
